@@ -18,15 +18,21 @@ import numpy as np
 from . import _c02_util as U
 from . import c02 as E
 from ._c02_classes import CLASSES as C02_CLASSES, Base, _fullshape, _model_doms, _pick_dtype
+from . import _c35_nft as NFT
 
 ID = "C35"
-LEAN_MODULES = ["NiftyVerif.Props.C35", "NiftyVerif.Model.LinOpsProto", "NiftyVerif.Model.Response"]
+LEAN_MODULES = ["NiftyVerif.Props.C35", "NiftyVerif.Model.LinOpsProto", "NiftyVerif.Model.Response",
+                "NiftyVerif.Model.ResponseLos", "NiftyVerif.Model.Nft", "NiftyVerif.Model.NftProto",
+                "NiftyVerif.Model.ResponseProto", "NiftyVerif.Core.Proto"]
 DRIVER = "Driver/C35.lean"
 TRANSLATORS = []
 OBLIGATIONS = ["NiftyVerif.C35." + t for t in (
     "interp_weights_sum_one", "interp_exact_multilinear", "interp_at_gridpoint", "interp_row_apply",
     "regrid_exact_affine", "pad_plain_spec", "pad_central_spec", "pad_plain_sum", "mask_selects_unflagged",
-    "mask_adjoint_zero_fill", "los_weights_sum", "los_outside_empty")]
+    "mask_adjoint_zero_fill", "los_weights_sum", "los_outside_empty",
+    "los_traverse_refines", "los_traverse_refines_zero", "los_traverse_weights_sum", "los_traverse_weights_nonneg",
+    "los_traverse_steps", "los_traverse_first_pixel", "los_clip_inside",
+    "nft_adjoint", "nft_mono_apply_spec", "nft_on_grid_is_dft", "nft_on_grid_is_dft_nd", "nft_shift", "nft_entry_is_phase")]
 RULE = ("one case = (operator class, generated grid / sampling points / line segments / positions / mask / accuracy); "
         "non-trivial = the operator has at least one non-zero weight; distinct by canonical JSON of the case")
 TRUSTED_BASE = [
@@ -61,8 +67,14 @@ class _Interp(Base):
         npts = rng.randint(1, 5)
         pts = []
         for _ in range(npts):
-            pts.append([float(Fraction(rng.randint(-8, 8 * (n + 1)), 8) * Fraction(dj)) for n, dj in zip(sh, dist)])
-        return dict(cls=self.name, doms=doms, points=pts, dtype=_pick_dtype(rng, "fc"))
+            far = rng.random() < 0.3               # several periods away, negative, beyond the upper edge
+            pts.append([float(Fraction(rng.randint(-16 * n, 24 * n) if far else rng.randint(-8, 8 * (n + 1)), 8) * Fraction(dj))
+                        for n, dj in zip(sh, dist)])
+        c = dict(cls=self.name, doms=doms, points=pts, dtype=_pick_dtype(rng, "fc"))
+        if rng.random() < 0.2:                     # integer sampling positions handed over as an int64 array
+            c["points"] = [[float(rng.randint(-2 * n, 3 * n)) for n in sh] for _ in range(npts)]
+            c["points_int"] = True
+        return c
 
     def malformed(self, rng):
         c = self.gen(rng, True)
@@ -75,7 +87,7 @@ class _Interp(Base):
 
     def build(self, case):
         import nifty.cl as ift
-        pts = np.array(case["points"], dtype=np.float64).T
+        pts = np.array(case["points"], dtype=np.int64 if case.get("points_int") else np.float64).T
         return ift.LinearInterpolator(U.build_domtuple(case["doms"]), pts)
 
     def line(self, case):
@@ -86,7 +98,8 @@ class _Interp(Base):
                     points=[[U.fr(v) for v in p] for p in case["points"]])
 
     def extra_oracle(self, case, op, rng):
-        """documented: exact for multilinear functions; at grid points the grid value"""
+        """documented: exact for multilinear functions; at grid points the grid value; periodic multilinear definition
+        evaluated independently (exact rationals) at the case's own points and at fresh ones far outside the grid"""
         import nifty.cl as ift
         doms = case["doms"]
         sh = _fullshape(doms)
@@ -120,7 +133,60 @@ class _Interp(Base):
                     f"(got {got.tolist()}, want {want.tolist()})", "multilinear")
         if got[0] != nodes[tuple(int(u) for u in U8[0])]:
             return ("interpolation at a grid point differs from the grid value", "gridpoint")
+        # --- the documented definition, independently, with periodic wrapping: positions below zero, beyond the upper edge,
+        #     exactly on nodes, several periods away (multiples of dist/8 in [-2·n·dist, 3·n·dist]) — exact (class E)
+        field = np.array([float(rng.randint(-4, 4)) for _ in range(int(np.prod(sh)))]).reshape(sh)
+        fresh = []
+        for k in range(6):
+            p = []
+            for n in sh:
+                r = rng.random()
+                if r < 0.35:
+                    u = Fraction(rng.randint(-16 * n, -1), 8)                       # negative
+                elif r < 0.55:
+                    u = Fraction(rng.randint(8 * n, 24 * n), 8)                     # beyond the upper edge
+                elif r < 0.7:
+                    u = Fraction(rng.randint(-2 * n, 3 * n))                        # exactly on a (wrapped) node
+                else:
+                    u = Fraction(rng.randint(-16 * n, 24 * n), 8)
+                p.append(u)
+            fresh.append(p)
+        own = [[Fraction(v) / Fraction(dj) for v, dj in zip(pt, dist)] for pt in case["points"]]
+        for label, UU in (("own", own), ("fresh", fresh)):
+            ptsx = np.array([[float(u * Fraction(dj)) for u, dj in zip(p, dist)] for p in UU], dtype=np.float64).T
+            opx = op if label == "own" else ift.LinearInterpolator(dom, ptsx)
+            gotx = opx(ift.makeField(dom, field)).asnumpy()
+            wantx = np.array([float(_periodic_multilinear(field, sh, p)) for p in UU])
+            if not np.array_equal(gotx, wantx):
+                i = int(np.argmax(gotx != wantx))
+                return (f"interpolation at x/dist = {[str(u) for u in UU[i]]} gives {gotx[i]!r}, the documented periodic "
+                        f"multilinear sum is {wantx[i]!r}", "periodic-definition")
+            # invariance under a shift of every coordinate by one period n_d·dist_d (either direction)
+            sgn = rng.choice([-1, 1])
+            ptss = np.array([[float((u + sgn * n) * Fraction(dj)) for u, dj, n in zip(p, dist, sh)] for p in UU]).T
+            gots = ift.LinearInterpolator(dom, ptss)(ift.makeField(dom, field)).asnumpy()
+            if not np.array_equal(gots, gotx):
+                return (f"interpolation changes when every coordinate is shifted by {sgn} period(s)", "period-shift")
+            # constants are reproduced exactly (weights add up to one)
+            gc = opx(ift.makeField(dom, np.full(sh, 3.0))).asnumpy()
+            if not np.array_equal(gc, np.full(len(UU), 3.0)):
+                return (f"interpolation of the constant 3 gives {gc.tolist()}", "constant")
         return None
+
+
+def _periodic_multilinear(field, sh, u):
+    """Σ_{e∈{0,1}^d} Π_d w_d · field[(floor(u_d)+e_d) mod n_d], w = 1−c or c, c = u − floor(u); `u` = x/dist as Fractions"""
+    import itertools
+    base = [math.floor(x) for x in u]
+    c = [x - b for x, b in zip(u, base)]
+    tot = Fraction(0)
+    for e in itertools.product((0, 1), repeat=len(sh)):
+        w = Fraction(1)
+        for ed, cd in zip(e, c):
+            w *= cd if ed else 1 - cd
+        if w:
+            tot += w * Fraction(field[tuple((b + ed) % n for b, ed, n in zip(base, e, sh))])
+    return tot
 
 
 class _Regrid35(type(C02_CLASSES["RegriddingOperator"])):
@@ -185,6 +251,31 @@ class _Pad35(type(C02_CLASSES["FieldZeroPadder"])):
             return ("plain zero padding changes the sum of the data", "pad-sum")
         if np.count_nonzero(y) < np.count_nonzero(x):
             return ("zero padding lost input values", "pad-lost")
+        # documented placement, axis by axis: plain = data first, zeros behind; central = the first n//2+1 entries in front,
+        # the last n//2 entries at the end, zeros in the middle (N = n+1, even and odd n included by the generator)
+        doms = case["doms"]
+        sp = case["space"] if case["space"] is not None else 0
+        a0 = sum(len(d["shape"]) for d in doms[:sp])
+        ref = x
+        for k, N in enumerate(case["new_shape"]):
+            ax = a0 + k
+            n = ref.shape[ax]
+            if N == n:
+                continue
+            shp = list(ref.shape)
+            shp[ax] = N
+            z = np.zeros(shp)
+            sl = lambda a, b: (slice(None),) * ax + (slice(a, b),)
+            if case["central"]:
+                ny = n // 2
+                z[sl(0, ny + 1)] = ref[sl(0, ny + 1)]
+                if ny:
+                    z[sl(N - ny, N)] = ref[sl(n - ny, n)]
+            else:
+                z[sl(0, n)] = ref
+            ref = z
+        if not np.array_equal(y, ref):
+            return ("zero padding does not place the data as documented", "pad-definition")
         return None
 
 
@@ -202,10 +293,23 @@ def _gen_los(rng):
     for _ in range(nlos):
         s, e = [], []
         par = rng.randrange(nd) if (nd > 1 and rng.random() < 0.25) else None     # axis-parallel in one coordinate
+        mode = rng.choice(["in", "in", "wide", "wide", "corner", "out"])
         for j in range(nd):
             L = shape[j] * Fraction(dist[j])
-            a = Fraction(rng.randint(-20, 117), 97) * L
-            b = Fraction(rng.randint(-20, 117), 97) * L
+            if mode == "in":                      # mostly inside, some slightly outside
+                a = Fraction(rng.randint(-20, 117), 97) * L
+                b = Fraction(rng.randint(-20, 117), 97) * L
+            elif mode == "wide":                  # start and end anywhere in [-1.5 L, 2.5 L]: crossing, entering, leaving
+                a = Fraction(rng.randint(-145, 242), 97) * L
+                b = Fraction(rng.randint(-145, 242), 97) * L
+            elif mode == "corner":                # from outside one corner region towards the opposite one
+                lowa = rng.random() < 0.5
+                a = Fraction(rng.randint(-60, -1) if lowa else rng.randint(98, 160), 97) * L
+                b = Fraction(rng.randint(98, 160) if lowa else rng.randint(-60, -1), 97) * L
+            else:                                 # entirely outside (same side on at least this axis, sometimes all axes)
+                side = rng.random() < 0.5
+                a = Fraction(rng.randint(-120, -1) if side else rng.randint(98, 220), 97) * L
+                b = Fraction(rng.randint(-120, -1) if side else rng.randint(98, 220), 97) * L
             if par == j:
                 b = a
             s.append(str(a))
@@ -247,29 +351,79 @@ def _sampled_line_integral(case, x, M=20000):
     return np.array(out)
 
 
+def _exact_pixel_lengths(case):
+    """independent of any traversal: for every line and every pixel the length of (segment ∩ pixel box), by clipping the
+    parameter interval [0,1] against the 2·ndim faces of that one pixel (float64; exact up to rounding ~1e-16)"""
+    shape = case["shape"]
+    dist = [float(Fraction(d)) for d in case["dist"]]
+    out = np.zeros((len(case["starts"]),) + tuple(shape))
+    L = _los_lengths(case)
+    for r, (s, e) in enumerate(zip(case["starts"], case["ends"])):
+        ps = [float(Fraction(v)) / dj + 0.5 for v, dj in zip(s, dist)]
+        pe = [float(Fraction(v)) / dj + 0.5 for v, dj in zip(e, dist)]
+        lo_ax, hi_ax = [], []
+        for j, n in enumerate(shape):
+            d = pe[j] - ps[j]
+            i = np.arange(n, dtype=np.float64)
+            if d == 0.0:
+                inside = (i < ps[j]) & (ps[j] < i + 1)
+                lo = np.where(inside, 0.0, 2.0)
+                hi = np.where(inside, 1.0, -1.0)
+            else:
+                t0, t1 = (i - ps[j]) / d, (i + 1 - ps[j]) / d
+                lo, hi = np.minimum(t0, t1), np.maximum(t0, t1)
+            lo_ax.append(lo)
+            hi_ax.append(hi)
+        for idx in np.ndindex(*shape):
+            lo = max([0.0] + [lo_ax[j][i] for j, i in enumerate(idx)])
+            hi = min([1.0] + [hi_ax[j][i] for j, i in enumerate(idx)])
+            if hi > lo:
+                out[(r,) + idx] = (hi - lo) * L[r]
+    return out
+
+
 def los_oracle(case):
-    """LOSResponse returns line integrals of the (piecewise constant) field: compare with a sampled integral; adjointness"""
+    """LOSResponse returns line integrals of the (piecewise constant) field: Σ_pixels field·|segment ∩ pixel| with the
+    intersection lengths computed pixel by pixel (no traversal), for float64 / complex128 / float32 fields; a sampled
+    integral as a second, cruder reference; adjointness.  A constructor failure on a well-formed case is a failure."""
     import random
     rng = random.Random(zlib.crc32(json.dumps(case, sort_keys=True).encode()))
-    try:
-        dom, op, st, en = _los_build(case)
-    except Exception:
-        return None
     sig = lambda kind, **kw: dict(cls="LOSResponse", kind=kind, **kw)
     try:
+        dom, op, st, en = _los_build(case)
+    except Exception as e:
+        return (f"LOSResponse: constructor raised {type(e).__name__}: {str(e)[:100]} on well-formed starts/ends",
+                sig("build-error", error=type(e).__name__))
+    try:
         import nifty.cl as ift
-        x = np.array([float(rng.randint(0, 4)) for _ in range(dom.size)]).reshape(dom.shape)
-        got = op(ift.makeField(dom, x)).asnumpy()
-        want = _sampled_line_integral(case, x)
+        W = _exact_pixel_lengths(case)                      # (nlos,) + shape
         L = np.array(_los_lengths(case))
-        tol = (sum(case["shape"]) + 4) * L / 20000 * 4 + 1e-4 * L + 1e-6
-        if np.any(np.abs(got - want) > tol):
-            i = int(np.argmax(np.abs(got - want) - tol))
-            return (f"LOSResponse: line {i} gives {got[i]!r}, sampled line integral of the field is {want[i]!r}",
+        Wsum = np.abs(W).reshape(len(L), -1).sum(axis=1)
+        for dt in (np.float64, np.complex128, np.float32):
+            x = np.array([float(rng.randint(0, 4)) for _ in range(dom.size)]).reshape(dom.shape).astype(dt)
+            if dt is np.complex128:
+                x = x + 1j * np.array([float(rng.randint(-3, 3)) for _ in range(dom.size)]).reshape(dom.shape)
+            got = op(ift.makeField(dom, x)).asnumpy()
+            want = np.tensordot(W, x.astype(np.complex128 if dt is np.complex128 else np.float64), axes=len(dom.shape))
+            xm = float(np.abs(x).max()) + 1e-30
+            # 1e-7 shrink at both ends (2e-7·L), float32 storage of every weight (6e-8 relative), float32 accumulation for
+            # float32 fields
+            tol = 3e-7 * L * xm + (2e-7 if dt is not np.float32 else 1e-6) * Wsum * xm + 1e-12
+            if np.any(np.abs(got - want) > tol):
+                i = int(np.argmax(np.abs(got - want) - tol))
+                return (f"LOSResponse ({np.dtype(dt).name} field): line {i} gives {got[i]!r}, the line integral "
+                        f"Σ field·|segment ∩ pixel| is {want[i]!r}", sig("line-integral"))
+            if dt is np.float64:
+                got64, x64 = got, x
+        want2 = _sampled_line_integral(case, x64)
+        tol2 = (sum(case["shape"]) + 4) * L / 20000 * 4 + 1e-4 * L + 1e-6
+        if np.any(np.abs(got64 - want2) > tol2):
+            i = int(np.argmax(np.abs(got64 - want2) - tol2))
+            return (f"LOSResponse: line {i} gives {got64[i]!r}, sampled line integral of the field is {want2[i]!r}",
                     sig("line-integral"))
         y = np.array([float(rng.randint(-3, 3)) for _ in range(op.target.size)])
         AHy = op.adjoint_times(ift.makeField(op.target, y)).asnumpy()
-        lhs, rhs = float(np.vdot(y, got)), float(np.vdot(AHy, x))
+        lhs, rhs = float(np.vdot(y, got64)), float(np.vdot(AHy, x64))
         if abs(lhs - rhs) > 1e-5 * (abs(lhs) + abs(rhs) + 1):
             return (f"LOSResponse: <y,Ax> = {lhs} but <A^H y,x> = {rhs}", sig("adjoint"))
     except Exception as e:
@@ -277,9 +431,65 @@ def los_oracle(case):
     return None
 
 
-def _run_los(ctx, n):
+LOS_EPS = "1/10000000"          # the code's end-point shrink 1e-07, sent to the transcription as an exact rational
+
+
+def _f32(x):
+    return float(np.float32(x))
+
+
+def _los_compare(ctx, case, m, op, R):
+    """three-way comparison for one generated LOS case; returns (nontrivial, skipped)"""
+    L = _los_lengths(case)
+    nlos, npix = R.shape
+    # (a) Lean-internal: transcription == independent segment model on the same parameter interval (exact, generic lines only);
+    #     the transcribed clipping agrees with clipBox (always)
+    for r, ln in enumerate(m["los"]):
+        for key in ("eps", "zero"):
+            o = ln[key]
+            if not o["clip"]:
+                ctx.disagree(case, {"line": r, "which": key, "clipT": [o["dmin"], o["dmax"]]}, {"clipBox": "differs"},
+                             "LOS: transcribed clipping (d0/d1/dmin/dmax) differs from the independent clipBox")
+            if o["generic"]:
+                ctx.stat("los-refine-compared:" + key)
+                if sorted(map(tuple, o["trav"])) != sorted(map(tuple, o["seg"])):
+                    ctx.disagree(case, {"line": r, "which": key, "trav": o["trav"]}, {"seg": o["seg"]},
+                                 "LOS: transcription of _comp_traverse differs from the independent segment model (generic line)")
+            else:
+                ctx.stat("los-refine-skipped-nongeneric:" + key)
+    # (b) code vs transcription (eps = 1e-7): same pixels, float32 of the exact weight
+    if m["init"] == "ValueError":
+        ctx.disagree(case, {"built": True}, {"init": "ValueError"}, "LOS transcription emits an out-of-grid pixel, the code does not")
+        return False, False
+    T = np.zeros((nlos, npix))
+    for r, c, w in m["init"]:
+        T[r, c] += _f32(float(Fraction(w)) * L[r])
+    Lc = np.array(L)[:, None]
+    tolT = 2.5e-7 * np.abs(T) + 1e-10 * Lc
+    if np.any(np.abs(R - T) > tolT):
+        i = np.unravel_index(int(np.argmax(np.abs(R - T) - tolT)), R.shape)
+        ctx.disagree(case, {"entry": [int(i[0]), int(i[1])], "code": float(R[i])}, {"transcription": float(T[i])},
+                     "LOSResponse (sigma=0): COO weights vs transcription of _comp_traverse at eps=1e-7 (float32 of the exact value)")
+    # (c) code vs independent model on the whole clipped segment (class T: the 1e-7 shrink is inside the tolerance)
+    M = np.zeros((nlos, npix))
+    for r, c, re, im in m["modes"]["1"]:
+        M[r, c] += float(Fraction(re)) * L[r]
+    tol = 2.5e-7 * Lc + 2.5e-7 * np.abs(M) + 1e-10 * Lc
+    if np.any(np.abs(R - M) > tol):
+        i = np.unravel_index(int(np.argmax(np.abs(R - M) - tol)), R.shape)
+        ctx.disagree(case, {"entry": [int(i[0]), int(i[1])], "code": float(R[i])}, {"model": float(M[i])},
+                     "LOSResponse (sigma=0): pixel weights vs independent exact traversal model (class T)")
+    return bool(np.any(M != 0)), False
+
+
+def _los_cases(ctx, n):
     cases = [_gen_los(ctx.rng) for _ in range(n)]
-    outs = ctx.model(DRIVER, cases)
+    for c in cases:
+        c["eps"] = LOS_EPS
+    return cases
+
+
+def _los_process(ctx, cases, outs):
     for case, m in zip(cases, outs):
         ctx.stat("cls:LOSResponse")
         ctx.stat("los-ndim:%d" % len(case["shape"]))
@@ -289,29 +499,17 @@ def _run_los(ctx, n):
         except Exception as e:
             ctx.case(case, False)
             ctx.disagree(case, {"error": type(e).__name__}, m, "LOSResponse could not be built")
+            r = los_oracle(case)
+            if r is not None:
+                ctx.counterexample(case, r[0], r[1])
             continue
         if "error" in m:
             ctx.case(case, False)
             ctx.disagree(case, {"built": True}, m, "LOS model rejected a case the code accepts")
             continue
-        L = _los_lengths(case)
-        M = np.zeros_like(R)
-        small = False
-        for r, c, re, im in m["modes"]["1"]:
-            w = float(Fraction(re)) * L[r]
-            if 0 < w < 1e-5:
-                small = True
-            M[r, c] += w
-        if small:
-            ctx.skipped_near_threshold += 1
-            ctx.case(case, False)
-            continue
-        ctx.case(case, bool(np.any(M != 0)))
-        tol = 3e-6 * np.array(L)[:, None] + 1e-6 * np.abs(M) + 1e-9
-        if np.any(np.abs(R - M) > tol):
-            i = np.unravel_index(int(np.argmax(np.abs(R - M) - tol)), R.shape)
-            ctx.disagree(case, {"entry": [int(i[0]), int(i[1])], "code": float(R[i])}, {"model": float(M[i])},
-                         "LOSResponse (sigma=0): pixel weights vs exact traversal model (class T)")
+        nontrivial, _ = _los_compare(ctx, case, m, op, R)
+        ctx.case(case, nontrivial)
+        ctx.stat("los-hits-grid" if nontrivial else "los-misses-grid")
         r = los_oracle(case)
         if r is not None:
             ctx.counterexample(case, r[0], r[1])
@@ -331,7 +529,14 @@ def _gen_nft(rng):
     nd = len(shape)
     dist = [rng.choice([0.1, 0.5, 1.0, 0.37, 2.0]) for _ in range(nd)]
     npts = rng.randint(1, 5)
-    pos = [[round(rng.uniform(-1.5, 1.5) / d, 6) for d in dist] for _ in range(npts)]
+    def coord(d):
+        r = rng.random()
+        if r < 0.6:
+            return round(rng.uniform(-1.5, 1.5) / d, 6)
+        if r < 0.8:
+            return round(rng.uniform(-7.5, 7.5) / d, 6)                     # several periods away
+        return rng.choice([0.0, 1.0, -1.0, 0.5, -0.5, 2.0, -3.0]) / d      # exactly on the period boundary / half period
+    pos = [[coord(d) for d in dist] for _ in range(npts)]
     eps = rng.choice([1e-5, 1e-8, 2e-10])
     seed = rng.randrange(1 << 30)
     return dict(cls=kind, shape=shape, dist=dist, pos=pos, eps=eps, seed=seed)
@@ -449,17 +654,56 @@ def nft_oracle(case):
             scale = np.abs(g).sum() * (1 + np.abs(K[0]).max() * 10) + 1
             if abs(lhs - rhs) > 1e3 * eps * scale * 10 + 1e-8:
                 return (f"VariablePositionNufft Jacobian: Re<y,Jx> = {lhs} but Re<J^H y,x> = {rhs}", sig("adjoint"))
-            h = 1e-6
-            xp = ift.MultiField.from_dict({"grid": x["grid"], "coord": x["coord"] + h * dx["coord"]}, domain=op.domain)
-            fd = (op(xp).asnumpy() - got) / h
+            # the coordinate part of the Jacobian against the explicit derivative of the Fourier sum
+            #   d/dpos_{j,d} Σ_k g_k e^{-iθ_kj} = Σ_k g_k (-i κ_d 2π dst_d) e^{-iθ_kj}
+            # (a finite difference is useless here: the kernel error ~eps is not smooth across a period boundary, so
+            #  (f(x+h)-f(x))/h carries noise eps·Σ|g|/h)
             dx0 = ift.MultiField.from_dict({"grid": 0 * dx["grid"], "coord": dx["coord"]}, domain=op.domain)
             an = jac(dx0).asnumpy()
-            if np.abs(fd - an).max() > 1e-3 * (np.abs(an).max() + 1) + 1e4 * eps * scale / 1.0:
-                return ("VariablePositionNufft: coordinate Jacobian differs from the finite difference "
-                        f"({np.abs(fd - an).max():.3g})", sig("jacobian"))
+            dxc = dx["coord"].asnumpy()
+            wantj = np.zeros(len(pos), dtype=np.complex128)
+            for j, p in enumerate(pos):
+                ph = np.exp(-1j * sum(K[d] * (2 * np.pi * p[d] * dist[d]) for d in range(len(shape))))
+                for d in range(len(shape)):
+                    wantj[j] += dxc[j, d] * np.sum(g * (-1j * K[d] * 2 * np.pi * dist[d]) * ph)
+            amp = sum(np.abs(K[d]).max() * 2 * np.pi * dist[d] for d in range(len(shape))) * max(np.abs(dxc).max(), 1.0)
+            tolj = 100 * eps * np.abs(g).sum() * (amp + 1) + 1e-9
+            if np.abs(an - wantj).max() > tolj:
+                return ("VariablePositionNufft: coordinate Jacobian differs from the derivative of the explicit Fourier sum "
+                        f"by {np.abs(an - wantj).max():.3g} (tol {tolj:.3g})", sig("jacobian"))
     except Exception as e:
         return (f"{kind}: raised {type(e).__name__}: {str(e)[:120]}", sig("apply-error", error=type(e).__name__))
     return None
+
+
+# ------------------------------------------------------------------------------------------------ NFT on a rational lattice
+def _lattice_process(ctx, cases, outs):
+    """positions with pos·dst = a/M: the Lean model (Model/Nft.lean) gives E·x and E^H·y exactly as polynomials in
+    ω = e^{2πi/M}; the harness evaluates them numerically and compares the real operators at the epsilon-dependent
+    tolerance (class T); the exponent table is cross-checked in integers"""
+    for case, out in zip(cases, outs):
+        ctx.stat("cls:lattice-" + case["cls"])
+        ctx.stat("lattice-M:%d" % case["M"])
+        ctx.case(case, True)
+        if isinstance(out, dict) and "exp" in out and not NFT.model_exp_ok(case, out):
+            ctx.disagree(case, {"exp": "python"}, {"exp": out["exp"][:6]}, "NFT lattice: exponent table of the Lean model")
+            continue
+        r = NFT.check_lattice(case, out)
+        if r is not None:
+            # model (exact lattice sums) vs code: a correspondence failure, re-examined by vcheck with the model-free oracle
+            ctx.disagree(case, {"code": r[1]}, {"model": "Model/Nft.lean"}, r[0])
+        r = nft_oracle(case)                     # model-free: explicit Python Fourier sums on the real code
+        if r is not None:
+            ctx.counterexample(case, r[0], r[1])
+
+
+def _run_los_and_lattice(ctx, nlos, nlat):
+    """one driver call for both streams (every `lean --run` start costs seconds)"""
+    lc = _los_cases(ctx, nlos)
+    nc = [NFT.gen_lattice(ctx.rng) for _ in range(nlat)]
+    outs = ctx.model(DRIVER, lc + [NFT.model_line(c) for c in nc])
+    _los_process(ctx, lc, outs[:len(lc)])
+    _lattice_process(ctx, nc, outs[len(lc):])
 
 
 # ------------------------------------------------------------------------------------------------ nifty.re sampling LOS
@@ -536,7 +780,7 @@ def shrink(case):
 
 def run(ctx):
     E.run_table(ctx, CLASSES, DRIVER, ctx.n(24, 400), ctx.n(4, 30), "C35")
-    _run_los(ctx, ctx.n(30, 800))
+    _run_los_and_lattice(ctx, ctx.n(30, 800), ctx.n(12, 600))
     for _ in range(ctx.n(120, 1500)):
         c = _gen_nft(ctx.rng)
         ctx.stat("cls:" + c["cls"])
